@@ -1,8 +1,10 @@
 import GormModel.Drv.Util
 import GormModel.Model.Callbacks
 import GormModel.Model.CallbackBuilder
+import GormModel.Model.CallbackExec
 open Lean
 namespace Gorm.Drv
+open Reent
 
 def parseCb (j : Json) : Option Cb := do
   let p ← jArr? j
@@ -81,6 +83,25 @@ def guardGap (r : CbRepairs) (p0 : Proc) (ops : List Cb) : Nat × Nat :=
     let gap := e1 == some .cycle && e0 != some .fuel
     (p0', a + (if gap then 1 else 0), b + (if gap && e0 == none then 1 else 0))) (p0, 0, 0)).2
 
+/-- one inner call of a script: [hid, other, item] -- the handler `hid`, when it fires, hands `item`'s record to the
+    running pipeline (`other = false`) or to the second pipeline -/
+def parseInner (j : Json) : Option (Nat × Eff) := do
+  let p ← jArr? j
+  let it ← parseItem (arg p 2)
+  some (← jNat? (arg p 0), { other := ← jBool? (arg p 1), cb := it.1 })
+
+def scriptOf (l : List (Nat × Eff)) : Script := fun h => (l.filter (·.1 == h)).map (·.2)
+
+/-- ["cb.exec", init, [items], initOther, [[inner ...] per run]]: the history `items` on the pipeline `init`, then one
+    `Execute` per script (the loop of the tree's model: a fold over the SNAPSHOT, Model/CallbackExec.lean);
+    per run: the handlers fired, what every inner call returned, the chains of both pipelines afterwards -/
+def execRuns (r : CbRepairs) : World → List (List (Nat × Eff)) → List Json
+  | _, [] => []
+  | w, s :: ss =>
+    let st := w.execute r (scriptOf s)
+    Json.mkObj [("trace", natListJ st.trace), ("errs", Json.arr (st.errs.map errJ).toArray),
+      ("fns", natListJ st.w.run.fns), ("ofns", natListJ st.w.oth.fns)] :: execRuns r st.w ss
+
 /-- ["cb.run", [regops for the initial (built-in) registrations], [regops]] ->
     (items of the second list: legacy RegOps or ["chain", start, [steps], finish] -- built through the REGENERATED
      builder tables `treeBuilder`; optional 4th argument: names to `Get`)
@@ -108,6 +129,19 @@ def handleC17 (op : String) (args : Array Json) : Option Json := do
       ("get", Json.arr (getNames.map (fun n => match p.get n with | some h => Json.num (h : Int) | none => Json.num (-1 : Int))).toArray),
       ("spelled", Json.bool (items.all (·.2))),
       ("gap", natListJ [gap.1, gap.2])])
+  | "cb.exec" =>
+    let init ← (← jArr? (arg args 1)).toList.mapM parseRegOp
+    let items ← (← jArr? (arg args 2)).toList.mapM parseItem
+    let initO ← (← jArr? (arg args 3)).toList.mapM parseRegOp
+    let runs ← (← jArr? (arg args 4)).toList.mapM (fun j => do (← jArr? j).toList.mapM parseInner)
+    let (p0, _) := Proc.runR treeRepairs {} init
+    let (p, errs) := Proc.runCbsR treeRepairs p0 (items.map (·.1))
+    let (q, _) := Proc.runR treeRepairs {} initO
+    some (Json.mkObj [
+      ("errs", Json.arr (errs.map errJ).toArray),
+      ("fns", natListJ p.fns), ("ofns", natListJ q.fns),
+      ("loop", Json.str Gen.executeLoop),
+      ("runs", Json.arr (execRuns treeRepairs { run := p, oth := q } runs).toArray)])
   | "cb.flags" =>
     some (Json.mkObj [
       ("depthGuard", Json.bool treeRepairs.depthGuard),
